@@ -117,7 +117,7 @@ def gen_props():
 DESCR = {
     "Basic": "`Bytes`, the `Cause` enum, the panic-aware result `Res` (ok / err / panic / unmodelled), hex codec of the line protocol",
     "Regex": "regular expressions with captures, leftmost-first backtracking matcher in CPS with absolute positions, `search`",
-    "Scan": "`parser/scanner.go`: delimiters (`Delims.ofList` defaulting), the token regexp, `FindAll` loop, hyphen detection, line counting",
+    "Scan": "`parser/scanner.go`: delimiters (`Delims.ofList` defaulting), the token regexp, the match loop with the lexical skip of raw/comment bodies (`endTagRe`, `lexSkip`), hyphen detection, line counting",
     "Parse": "`parser/parser.go` + the block grammar of `tags/standard_tags.go`: zipper stack machine, comment/raw modes, errors",
     "Nest": "declarative nesting grammar (the specification the parser is proved against), printer",
     "Value": "`GoVal`: a Go value *with its representation* (int widths, typed slices, arrays, maps, MapSlice, pointers, drops, structs, time); `ToLiquid`; text codec",
